@@ -80,36 +80,69 @@ Section Libc.
   Qed.
 End Libc.
 
-(* with a C library that implements the POSIX rule *)
-Lemma tzlocal_posix_utc_lemma r u :
-  (forall ds, r.(p_dst) = Some ds -> r.(p_off) < ds.(d_off)) ->
-  exists f, tzlocal_observe_utc r u =
+(* ---- with a C library that implements the POSIX rule, seen through CPython's time module ---- *)
+
+(* what the time module holds when exactly one of its two samples is a daylight instant and the
+   saving is positive: the (standard, daylight) pair, in either hemisphere *)
+Lemma time_module_sampled c r ds tj tl :
+  libc_implements c r -> r.(p_dst) = Some ds -> r.(p_off) < ds.(d_off) ->
+  posix_isdst r tj <> posix_isdst r tl ->
+  time_module c tj tl = (r.(p_off), ds.(d_off), true, r.(p_name), ds.(d_name)).
+Proof.
+  intros Hc Hd Hlt Hs. unfold time_module.
+  destruct (Hc tj) as (_ & Oj & Nj). destruct (Hc tl) as (_ & Ol & Nl).
+  rewrite Oj, Ol, Nj, Nl. unfold posix_off_at, posix_name_at. rewrite Hd.
+  destruct (posix_isdst r tj), (posix_isdst r tl); try (exfalso; apply Hs; reflexivity).
+  - replace (p_off r <? d_off ds) with true by lia. replace (d_off ds =? p_off r) with false by lia. reflexivity.
+  - replace (d_off ds <? p_off r) with false by lia. replace (p_off r =? d_off ds) with false by lia. reflexivity.
+Qed.
+
+(* no daylight part: both samples agree, daylight = 0 *)
+Lemma time_module_fixed c r tj tl :
+  libc_implements c r -> r.(p_dst) = None ->
+  time_module c tj tl = (r.(p_off), r.(p_off), false, r.(p_name), r.(p_name)).
+Proof.
+  intros Hc Hd. unfold time_module.
+  destruct (Hc tj) as (_ & Oj & Nj). destruct (Hc tl) as (_ & Ol & Nl).
+  rewrite Oj, Ol, Nj, Nl. unfold posix_off_at, posix_name_at. rewrite Hd.
+  replace (p_off r <? p_off r) with false by lia. replace (p_off r =? p_off r) with true by lia. reflexivity.
+Qed.
+
+Lemma tzlocal_posix_utc_lemma c r tj tl u :
+  libc_implements c r ->
+  (forall ds, r.(p_dst) = Some ds -> r.(p_off) < ds.(d_off) /\ posix_isdst r tj <> posix_isdst r tl) ->
+  exists f, tzlocal_c_observe_utc c tj tl u =
     (let '(o, d, n) := posix_observe r u in (u + o, f, o, d, n)).
 Proof.
-  intros Hsv. unfold tzlocal_observe_utc, tzlocal_of, posix_observe.
+  intros Hc Hsv. unfold tzlocal_c_observe_utc, posix_observe.
   destruct (p_dst r) as [ds|] eqn:Hd.
-  - pose proof (Hsv ds eq_refl) as Hlt.
-    replace (p_off r <=? d_off ds) with true by lia.
-    destruct (tzlocal_faithful_utc (posix_isdst r) (p_off r) (d_off ds) (p_name r) (d_name ds)
+  - destruct (Hsv ds eq_refl) as (Hlt & Hs).
+    rewrite (time_module_sampled c r ds tj tl Hc Hd Hlt Hs).
+    destruct (tzlocal_faithful_utc (lc_isdst c) (p_off r) (d_off ds) (p_name r) (d_name ds)
                 ltac:(lia) u) as (f & E).
-    exists f. rewrite E. destruct (posix_isdst r u); reflexivity.
-  - exists false. unfold l_observe_utc, l_fromutc, l_gen_ambiguous, l_utcoffset, l_dst, l_tzname,
+    exists f. rewrite E. destruct (Hc u) as (-> & _). destruct (posix_isdst r u); reflexivity.
+  - rewrite (time_module_fixed c r tj tl Hc Hd).
+    exists false. unfold l_observe_utc, l_fromutc, l_gen_ambiguous, l_utcoffset, l_dst, l_tzname,
       l_isdst, l_hasdst, l_dst_saved, l_dst_off.
     replace (p_off r - p_off r =? 0) with true by lia. cbn [negb].
     replace (p_off r =? p_off r) with true by lia. cbn [negb].
     f_equal. f_equal. f_equal. f_equal. lia.
 Qed.
 
-Lemma tzlocal_posix_wall_lemma r ds w f u :
-  r.(p_dst) = Some ds -> r.(p_off) < ds.(d_off) ->
+Lemma tzlocal_posix_wall_lemma c r ds tj tl w f u :
+  libc_implements c r ->
+  r.(p_dst) = Some ds -> r.(p_off) < ds.(d_off) -> posix_isdst r tj <> posix_isdst r tl ->
   wall_instant r w f = Some u ->
-  tzlocal_observe_wall r w f = posix_observe r u.
+  tzlocal_c_observe_wall c tj tl w f = posix_observe r u.
 Proof.
-  intros Hd Hsv Hu. unfold tzlocal_observe_wall, tzlocal_of, wall_instant, wall_candidates in *.
-  rewrite Hd in *. replace (p_off r <=? d_off ds) with true by lia.
+  intros Hc Hd Hsv Hs Hu. unfold tzlocal_c_observe_wall, wall_instant, wall_candidates in *.
+  rewrite (time_module_sampled c r ds tj tl Hc Hd Hsv Hs).
+  rewrite Hd in *.
   unfold l_observe_wall, l_utcoffset, l_dst, l_tzname.
-  pose proof (tzlocal_faithful_wall (posix_isdst r) (p_off r) (d_off ds) ltac:(lia) w f) as L.
+  pose proof (tzlocal_faithful_wall (lc_isdst c) (p_off r) (d_off ds) ltac:(lia) w f) as L.
   cbv zeta in L. unfold posix_observe. rewrite Hd. unfold l_dst_off.
+  destruct (Hc (w - d_off ds)) as (E1 & _). destruct (Hc (w - p_off r)) as (E0 & _).
+  rewrite E1, E0 in L.
   destruct (posix_isdst r (w - d_off ds)) eqn:C1; destruct (posix_isdst r (w - p_off r)) eqn:C0;
     cbn [negb app andb orb] in *.
   - (* only the daylight instant *) inversion Hu; subst u. rewrite (L eq_refl), C1. reflexivity.
@@ -121,24 +154,51 @@ Proof.
   - inversion Hu; subst u. rewrite (L eq_refl), C0. reflexivity.
 Qed.
 
-(* F-C08-4: with CPython's (smaller offset, larger offset) pair and a negative saving, tzlocal
-   contradicts POSIX -- at ANY instant, here 2021-07-01T12:00:00Z under the Irish rule:
-   model/dateutil +00:00 GMT, POSIX and glibc +01:00 IST *)
+Lemma posix_libc_implements r : libc_implements (posix_libc r) r.
+Proof. intro t. repeat split. Qed.
+
+(* sample instants of a process started in 2021: tj = 2020-12-31T18:00:00Z (= (t / YEAR) * YEAR
+   for YEAR = 365.25 days: 51 years after 1970), tl = tj + 182.625 days *)
+Definition TJ_2021 : Z := 63745120800.
+Definition TL_2021 : Z := TJ_2021 + 15778800.
+
+(* F-C08-4: a negative saving -- time.timezone / altzone / tzname are the (smaller, larger) sampled
+   offsets, tzlocal indexes them by tm_isdst: wrong at ANY instant, here 2021-07-01T12:00:00Z under the
+   Irish rule: model/dateutil +00:00 GMT, POSIX and glibc +01:00 IST *)
 Lemma tzlocal_negative_dst_refuted_lemma :
   exists r u, wf_posix r = true /\
     (exists ds, r.(p_dst) = Some ds /\ ds.(d_off) < r.(p_off)) /\
-    let '(_, _, o, _, n) := tzlocal_observe_utc r u in
+    posix_isdst r TJ_2021 <> posix_isdst r TL_2021 /\
+    let '(_, _, o, _, n) := tzlocal_observe_utc r TJ_2021 TL_2021 u in
     let '(o', _, n') := posix_observe r u in o <> o' /\ n <> n'.
 Proof.
   exists (mkPosix [73; 83; 84] 3600
             (Some (mkDst [71; 77; 84] 0 (mkPrule (DM 10 5 0) 7200) (mkPrule (DM 3 5 0) 3600)))),
          63760822800.
   split; [vm_compute; reflexivity|]. split; [eexists; split; [reflexivity|vm_compute; reflexivity]|].
+  split; [vm_compute; discriminate|].
   vm_compute. split; discriminate.
 Qed.
 
-Lemma tzlocal_posix_utc_pos_lemma r u :
-  (forall ds, r.(p_dst) = Some ds -> r.(p_off) < ds.(d_off)) ->
-  exists f, tzlocal_observe_utc r u =
-    (let '(o, d, n) := posix_observe r u in (u + o, f, o, d, n)).
-Proof. exact (tzlocal_posix_utc_lemma r u). Qed.
+(* F-C08-5: a POSITIVE saving inside the full guard whose daylight window contains neither sample:
+   'EST5EDT,M2.1.0,M5.1.0' -- both samples are standard time, time.daylight = 0, tzlocal has no
+   daylight time at all: 2021-03-15T12:00:00Z is 07:00 -05:00 EST for tzlocal, 08:00 -04:00 EDT for
+   POSIX and glibc.  (Likewise when the window contains both samples: the daylight pair all year.) *)
+Definition r_feb_may : posix :=
+  mkPosix [69; 83; 84] (-18000)
+    (Some (mkDst [69; 68; 84] (-14400) (mkPrule (DM 2 1 0) 7200) (mkPrule (DM 5 1 0) 7200))).
+
+Lemma tzlocal_unsampled_window_refuted_lemma :
+  exists r u, wf_posix r = true /\ guard_apart r = true /\ guard_d8 r = true /\
+    (exists ds, r.(p_dst) = Some ds /\ r.(p_off) < ds.(d_off)) /\
+    posix_isdst r TJ_2021 = posix_isdst r TL_2021 /\
+    time_module (posix_libc r) TJ_2021 TL_2021 = (r.(p_off), r.(p_off), false, r.(p_name), r.(p_name)) /\
+    let '(_, _, o, _, n) := tzlocal_observe_utc r TJ_2021 TL_2021 u in
+    let '(o', _, n') := posix_observe r u in o <> o' /\ n <> n'.
+Proof.
+  exists r_feb_may, (ord_of_ymd 2021 3 15 * 86400 + 43200).
+  split; [vm_compute; reflexivity|]. split; [vm_compute; reflexivity|]. split; [vm_compute; reflexivity|].
+  split; [eexists; split; [reflexivity|vm_compute; reflexivity]|].
+  split; [vm_compute; reflexivity|]. split; [vm_compute; reflexivity|].
+  vm_compute. split; discriminate.
+Qed.
